@@ -736,3 +736,192 @@ def resume_stream(ctx, J, bases):
             ok = flight_agree(mo, impl)
         if not ok:
             ctx.disagree("resume-checks", {"combo": list(combo), "line": line}, mo, impl)
+
+
+# ---------------------------------------------------------------------------------------------
+# early data: ClientHello with early_data + PSK, then undecryptable records; the skipping is bounded by
+# settings.max_early_data (property: bounded work, fails promptly)
+def run_early_data_case(max_early, known_psk, sizes, rng_bytes):
+    from harness import lab
+    from . import c08
+    L = lab.Lab()
+    L.max_steps = 200000
+    chain, key = lab.creds("rsa")
+    ss = lab.settings(minv=(3, 1), maxv=(3, 4), eccCurves=["secp256r1", "x25519", "secp384r1"],
+                      pskConfigs=[(b"iiii", b"\x01" * 32)], max_early_data=max_early)
+    L.start_server(lambda c: c.handshakeServerAsync(certChain=chain, privateKey=key, settings=ss))
+    L.client.state = "idle"
+    P = lambda v: ("P", v)
+    f = {"pe": 0, "cv": 0x0303, "se": 0, "ce": 0, "nc": 1, "sv": P([0x0304]), "sa": P(4), "alpn": "-", "sni": P([(0, "o")]),
+         "ems": "-", "ecpf": "-", "pha": "-", "pm": P([1]), "psk": P(([4 if known_psk else 5], [32], True)), "sg": P([29, 23]),
+         "ks": P([29]), "ed": P(False), "hb": "-", "rsl": "-", "ct": "-", "_min": 0x0301, "_vers": [0x0304, 0x0303, 0x0302, 0x0301],
+         "_dupval": {}}
+    L.link.inject("c2s", c08.rec(22, c08.ch_feature_bytes(f), ver=(3, 1)))
+    with c08.Watchdog():
+        L.run(only=("server",))
+    if L.server.state != "stall":
+        return L, None          # the hello itself was answered (known PSK with a bad binder): nothing to skip
+    total = 0
+    for n in sizes:
+        L.link.inject("c2s", c08.rec(23, rng_bytes(n), ver=(3, 3)))
+        total += n + 5
+    L.server.state = "running"
+    with c08.Watchdog():
+        L.run(only=("server",))
+    left = len(L.link.q["c2s"]) + len(L.server.conn.sock._read_buffer)
+    consumed = total - left
+    # whole records consumed (the BufferedSocket reads ahead, the record layer takes whole records out of it)
+    k, acc = 0, 0
+    while k < len(sizes) and acc + sizes[k] + 5 <= consumed:
+        acc += sizes[k] + 5
+        k += 1
+    return L, {"records_taken": k, "payload_taken": sum(sizes[:k])}
+
+
+def early_data_stream(ctx, J, thorough, only=None):
+    from . import c08
+    lc = ctx.lean()
+    rng = ctx.rng
+    rb = lambda n: bytes(rng.getrandbits(8) for _ in range(min(n, 32))) + b"\x00" * max(0, n - 32)
+    cases = []
+    for max_early in ([4000, 100, 16400] if not thorough else [1, 100, 1000, 4000, 16400, 70000]):
+        for s in ([1, 17, 500, 16384 + 256] if not thorough else [1, 2, 17, 100, 500, 4000, 16384, 16384 + 256]):
+            for mult in (0.5, 1.0, 6.0):
+                n = int(max_early * mult / max(1, s)) + (1 if mult >= 1.0 else 0)
+                n = max(1, min(n, 3000))
+                cases.append((max_early, False, [s] * n))
+        cases.append((max_early, False, [rng.choice([1, 20, 300, 1000]) for _ in range(60)]))
+        cases.append((max_early, True, [500] * 4))
+    if only is not None:
+        cases = [only]
+    for max_early, known, sizes in cases:
+        if ctx.out_of_time(0.7):
+            return
+        L, info = run_early_data_case(max_early, known, sizes, rb)
+        v = L.server
+        replay = {"stage": "early-data", "max_early": max_early, "known_psk": known, "sizes": sizes if len(set(sizes)) > 1 else
+                  {"size": sizes[0], "count": len(sizes)}, "msg": "early-data", "cls": "early-data-records", "scn": "early-data"}
+        out = c08.judge(J, L, "server", "early data: %d undecryptable records after ClientHello" % len(sizes), replay)
+        ctx.case(key=("early", max_early, known, tuple(sizes[:5]), len(sizes)), nontrivial=True,
+                 sample={"max_early_data": max_early, "records": len(sizes), "size": sizes[0], "outcome": out["cls"],
+                         "taken": info} if max_early == 4000 and sizes[0] == 500 else None)
+        ctx.count("early-data:" + out["cls"].split(":")[0])
+        if info is None:
+            continue
+        total = sum(sizes)
+        biggest = max(sizes)
+        # the property's reading of max_early_data: what is skipped stays below the budget, one more record at most
+        # is looked at, and a flight that exceeds the budget ends with a fatal bad_record_mac
+        if info["payload_taken"] > max_early + biggest:
+            J.report(("early-data-budget",), "c08:early-data-skipped-beyond-max_early_data",
+                     "after a ClientHello with early_data the server took %d bytes of undecryptable records although "
+                     "max_early_data is %d (%d records of up to %d bytes sent; outcome %s)"
+                     % (info["payload_taken"], max_early, len(sizes), biggest, out["cls"]), replay)
+        if total >= max_early + biggest and out["cls"] != "local_alert:20":
+            J.report(("early-data-no-failure",), "c08:early-data-beyond-budget-not-refused",
+                     "%d bytes of undecryptable records (max_early_data %d) did not end in bad_record_mac: %s"
+                     % (total, max_early, out["cls"]), replay)
+        if lc is not None:
+            mo = lc.ask("early max=%d done=0 sizes=%s" % (max_early, ",".join(map(str, sizes))))
+            m = dict(p.split("=") for p in mo.split(" "))
+            ctx.compared()
+            failed = out["cls"] == "local_alert:20"
+            # the record that trips the limit is taken too
+            want_taken = int(m["skipped"]) + (1 if m["failed"] == "1" else 0)
+            if (m["failed"] == "1") != failed or (failed and info["records_taken"] != want_taken) or \
+                    (not failed and v.state != "stall"):
+                ctx.disagree("early-data-skip", {"max_early": max_early, "size": sizes[0], "n": len(sizes)}, mo,
+                             {"outcome": out["cls"], "taken": info})
+
+
+# ---------------------------------------------------------------------------------------------
+# history level: after a failure on a connection that uses a cached session (full or resumed), a later connection
+# offering that session must not be resumed
+def resumption_history_stream(ctx, J, thorough, only=None):
+    import copy
+    from harness import lab
+    from tlslite.sessioncache import SessionCache
+    from . import c08
+    lc = ctx.lean()
+    scns = {s.name: s for s in c08.all_scenarios()}
+    ends = {
+        "close": 1,            # orderly close_notify: stays resumable
+        "garbage-to-server": 0,   # attacker's record fails the MAC at the server
+        "fatal-alert-to-server": 0,
+        "garbage-to-client": None,   # the client fails; the server learns it from the client's fatal alert
+    }
+
+    def finish(L, how):
+        if how == "close":
+            L.op("client", L.client.conn.closeAsync())
+            L.read("server", max=10)
+        elif how == "garbage-to-server":
+            L.link.inject("c2s", c08.rec(23, b"\x17" * 64, ver=tuple(L.server.conn.version)))
+            L.read("server", max=10)
+        elif how == "fatal-alert-to-server":
+            pc = L.client.conn
+            L.op("client", pc._sendMsgThroughSocket(c08.RawMessage(21, b"\x02\x28")), pump_other=False)
+            L.read("server", max=10)
+        elif how == "garbage-to-client":
+            L.link.inject("s2c", c08.rec(23, b"\x17" * 64, ver=tuple(L.client.conn.version)))
+            L.read("client", max=10)
+            L.read("server", max=10)
+
+    histories = [["garbage-to-server"], ["close", "garbage-to-server"], ["close", "fatal-alert-to-server"],
+                 ["close", "close"], ["close", "garbage-to-client"], ["fatal-alert-to-server"],
+                 ["close", "close", "garbage-to-server"], ["close", "garbage-to-server", "close"]]
+    if not thorough:
+        histories = histories[:6]
+    plan = [(n, h) for n in (["tls12-resume", "tls10-ecdhe"] if thorough else ["tls12-resume"]) for h in histories]
+    if only is not None:
+        plan = [only]
+    for sname, hist in plan:
+        scn = scns[sname]
+        if True:
+            cache = SessionCache()
+            sess = None
+            resumed_flags = []
+            server_marks = []
+            ok_run = True
+            for k, how in enumerate(hist + ["probe"]):
+                L = lab.Lab()
+                ckw = {"session": copy.copy(sess)} if sess is not None else {}
+                if sess is not None:
+                    ckw["session"].resumable = True      # an attacker's client keeps offering it
+                scn.start(L, {"ckw": ckw, "skw": {"sessionCache": cache}})
+                L.run()
+                if L.client.state != "done" or L.server.state != "done":
+                    ok_run = False
+                    break
+                resumed_flags.append(bool(L.server.conn.resumed))
+                if sess is None:
+                    sess = copy.copy(L.client.conn.session)
+                if how == "probe":
+                    break
+                finish(L, how)
+                s = L.server.conn.session
+                server_marks.append(None if s is None else bool(s.resumable))
+            if not ok_run:
+                ctx.count("history-baseline-failed")
+                continue
+            probe_resumed = resumed_flags[-1]
+            must_not = any(ends[h] == 0 for h in hist) or any(ends[h] is None and m is False for h, m in zip(hist, server_marks))
+            replay = {"stage": "resumption-history", "scn": sname, "history": hist, "msg": "resumption", "cls": "history",
+                      "resumed": resumed_flags}
+            ctx.case(key=("history", sname, tuple(hist)), nontrivial=True,
+                     sample={"history": hist, "resumed_per_connection": resumed_flags} if hist == ["close", "garbage-to-server"] else None)
+            ctx.count("history:" + ("resumed" if probe_resumed else "full"))
+            if must_not and probe_resumed:
+                J.report(("history-resumed",), "c08:session-resumed-after-failure-on-resumed-connection"
+                         if resumed_flags[hist.index(next(h for h in hist if ends[h] == 0 or ends[h] is None))] else
+                         "c08:session-resumed-after-failure",
+                         "history %s: the server ended a connection that used the cached session with a failure, yet the next "
+                         "connection offering that session was resumed (resumed flags per connection: %s)"
+                         % (hist, resumed_flags), replay)
+            if lc is not None:
+                flags = [ends[h] if ends[h] is not None else (1 if m else 0) for h, m in zip(hist, server_marks)]
+                mo = lc.ask("cache hist=%s" % ",".join(str(int(bool(x))) for x in flags))
+                ctx.compared()
+                if mo != "resumes=%d" % (1 if probe_resumed else 0):
+                    ctx.disagree("resumption-history", {"scenario": sname, "history": hist}, mo,
+                                 {"resumed": resumed_flags, "server_session_resumable": server_marks})
